@@ -210,7 +210,8 @@ JudgeEl(r, o) ==
   ELSE IF o.st # "live" THEN {"STATE"} ELSE JudgeElLive(r, o)
 
 (* which containers an operation may touch; everything else must be observed unchanged *)
-SrcVecOps == {"ElemFromRef", "ElemFromRvRef", "ElemAssignFromRef", "ElemAssignFromRvRef"}
+SrcVecOps == {"ElemFromRef", "ElemFromLvRef", "ElemFromRvRef", "ElemAssignFromRef", "ElemAssignFromLvRef",
+              "ElemAssignFromRvRef"}
 TouchedVecs(e) ==
   IF e.n \in ElemOps THEN (IF e.n \in {"ElemFromRvRef", "ElemAssignFromRvRef"} THEN {e.a[1]} ELSE {})
   ELSE {e.v} \cup (IF e.n \in VecOps2 THEN {e.a[1]} ELSE {})
